@@ -17,8 +17,8 @@ for f in sorted(glob.glob(os.path.join(os.path.dirname(os.path.dirname(os.path.a
         continue
     for what, script, judge in m.replays([]):
         n += 1
-        open(os.path.join(d, "r.sd"), "w").write(script)
-        r = subprocess.run([BIN, "r.sd"], cwd=d, capture_output=True, timeout=20)
+        open(os.path.join(d, "replay.sd"), "w").write(script)
+        r = subprocess.run([BIN, "replay.sd"], cwd=d, capture_output=True, timeout=20)
         v = judge(r.returncode, r.stdout.decode("utf-8", "replace"), r.stderr.decode("utf-8", "replace"))
         if v:
             bad += 1
